@@ -2,6 +2,7 @@ import Driver.Proto
 import SimuVerif.Model.Pipeline
 import SimuVerif.Model.Tissue
 import SimuVerif.Model.PipelineR
+import SimuVerif.Model.TissueR
 /-
   Model driver of C14 (assembled iteration of a single free cell): runs `Pipeline.cellIteration` at `Float`, i.e. the
   very definition the theorems of Properties/C14Pipeline.lean are about, from an initial state taken from the first
@@ -45,6 +46,19 @@ import SimuVerif.Model.PipelineR
   for k < n one line
     D <iteration> <stepOkR 0|1> <refineLive 0|1> <meshOk of the refined mesh 0|1> <splits> <collapses> <rebased 0|1> <swaps>
   (what the model does in that iteration); an exception of the refiner / of rebase ends the answer with `X <kind>`; then END.
+
+  Assembled iteration of a TISSUE WITH remeshing (`TissueR.tissueIterationR`, Properties/C14TissueR.lean); the initial state is the
+  first snapshot of `h_solver … tslots`:
+    tissuer <n> <every> <ncells> <swap 0|1>  dt damping lmin cutAdh cutRep samplingPeriod  <iteration> <file_number> time
+        per cell: <kind> <nt>  K maxP aem iso angf minVol growth divVol density maxCurv
+                  nt × (surface_tension bending_modulus repulsion_strength)   area volume target_volume pressure
+                  N <nn> ; … | F … | E … | FN … | FF … |        (the `R` line of mode `slots`, closed by a bar)
+                  nn × (fx fy fz  nx ny nz  curvature  cell node | - -  closest²)        (the `B` line of mode `tslots`)
+  answer: H setup <0|1>, then for k = 0 … n, when k % every = 0 or k = n the lines `S`, `J`, and per cell `C`, `R`, `B` of
+  `h_solver … tslots`, and for k < n one line
+    O <iteration> <stepOkTR 0|1> <refineLive ∧ replayOk 0|1> <cellMeshOk of all refined cells 0|1> <splits> <collapses> <rebased 0|1> <swaps>
+      <coupled used nodes after the contact phase> <used nodes with a contact force>
+  an exception of the refiner / of rebase ends the answer with `X <kind>`; then END.
 -/
 open Simu Simu.Forces Simu.Pipeline Driver
 
@@ -354,6 +368,114 @@ def simulate (out : IO.FS.Stream) (K : ConstsR Float) (n every : Nat) (s0 : Stat
 
 end RemeshDrv
 
+/-! ### tissue with remeshing -/
+namespace TissueRDrv
+open Simu.Remesh Simu.TissueR TissueDrv RemeshDrv
+
+def pAttr : P (V3 Float × V3 Float × Float × Option (Nat × Nat) × Float) := do
+  let f ← pV; let n ← pV; let c ← pF; let q ← pCoup; let d ← pF
+  pure (f, n, c, q, d)
+
+def pCellTR : P (CellTR Float) := do
+  let kind ← pNat; let nt ← pNat
+  let K ← pF; let maxP ← pF; let aem ← pF; let iso ← pF; let angf ← pF; let minVol ← pF; let growth ← pF
+  let divVol ← pF; let density ← pF; let maxCurv ← pF
+  let fts ← pMany nt (do let t ← pF; let b ← pF; let r ← pF; pure (t, b, r))
+  let area ← pF; let volume ← pF; let tvol ← pF; let pressure ← pF
+  let mesh ← pCellR
+  expect "|"
+  let att ← pMany mesh.nodes.size pAttr
+  let k : Tissue.CellK Float :=
+    { kind := kind, K := K, maxP := maxP, aem := aem, iso := iso, angf := angf, minVol := minVol, growth := growth,
+      divVol := divVol, density := density, maxCurv := maxCurv,
+      ft := fts.toList.map (fun t => ⟨t.1, t.2.1⟩), rep := fts.toList.map (fun t => t.2.2) }
+  pure { k := k, mesh := mesh,
+         a := ⟨att.map (·.1), att.map (·.2.1), att.map (·.2.2.1), att.map (·.2.2.2.1), att.map (·.2.2.2.2)⟩,
+         area := area, volume := volume, tvol := tvol, pressure := pressure }
+
+def pTissueR : P (ConstsTR Float × Nat × Nat × StateTR Float) := do
+  let n ← pNat; let every ← pNat; let nc ← pNat; let sw ← pNat
+  if every == 0 then failure
+  let dt ← pF; let damping ← pF; let lmin ← pF; let cutAdh ← pF; let cutRep ← pF; let sp ← pF
+  let it ← pNat; let fileNo ← pNat; let time ← pF
+  let cells ← pMany nc pCellTR
+  let i ← get
+  if i ≠ (← read).size then failure
+  let K : Tissue.Consts Float :=
+    { dt := dt, damping := damping, lmin := lmin, cutAdh := cutAdh, cutRep := cutRep,
+      dotAdh := cosDeg Gen.dotAdhDeg1, dotRep := cosDeg Gen.dotRepDeg1, big := dblMax, inf := dblInf, delta := Gen.gridDeltaFloat }
+  pure ({ base := K, samplingPeriod := sp, swapOn := sw != 0, maxIter := 1000000 }, n, every,
+        { iter := it, time := time, fileNo := Int.ofNat fileNo, cells := cells.toList, defined := true })
+
+def showAttrs (c : CellTR Float) : String :=
+  (List.range c.mesh.nodes.size).foldl (fun s i =>
+    s ++ " " ++ showV (c.a.force.getD i ⟨0, 0, 0⟩) ++ " " ++ showV (c.a.normal.getD i ⟨0, 0, 0⟩) ++ " " ++ showF (c.a.curv.getD i 0)
+      ++ " " ++ (match c.a.coup.getD i none with | some (a, b) => s!"{a} {b}" | none => "- -") ++ " " ++ showF (c.a.sqd.getD i 0)) "B"
+
+def showCellTR (ci : Nat) (c : CellTR Float) : List String :=
+  [s!"C {ci} {ci} {c.k.kind} {c.mesh.nodes.size} {c.mesh.faces.size} {showF c.area} {showF c.volume} {showF c.tvol} {showF c.pressure}",
+   "R " ++ dumpCell c.mesh,
+   showAttrs c]
+
+def showStateTR (s : StateTR Float) : List String :=
+  [s!"S {s.iter} {showF s.time} {s.cells.length}", s!"J {s.fileNo}"] ++ (s.cells.zipIdx.flatMap fun ci => showCellTR ci.2 ci.1)
+
+def countSwaps (fn : Fn Float) (c0 : Remesh.Cell Float) : Nat :=
+  match removeElongated fn (Gen.refineConsts fn) c0 with
+  | .ok c1 => ((List.range c0.faces.size).filter (fun i =>
+      match c0.faces[i]?, c1.faces[i]? with
+      | some f, some g => f.n1 != g.n1 || f.n2 != g.n2 || f.n3 != g.n3
+      | _, _ => false)).length / 2
+  | .error _ => 0
+
+def simulate (out : IO.FS.Stream) (K : ConstsTR Float) (n every : Nat) (s0 : StateTR Float) : IO Unit := do
+  let fn := Fn.float
+  let fx := FX.float
+  let P := Tissue.cparams K.base
+  out.putStrLn s!"H setup {if 0.0 ≤ K.base.delta && 0.0 < P.padding && 0.0 < P.voxel then 1 else 0}"
+  let mut s := s0
+  let mut stop := false
+  for k in [0:n+1] do
+    if stop then break
+    if k % every == 0 || k == n then
+      for l in showStateTR s do out.putStrLn l
+    if k < n then
+      -- `refineLiveT`, `meshStageT`, `beforeIntegrationR` are evaluated once each; `stepOkTR` / `tissueIterationR` are, by
+      -- definition, `stepOkFromT s live ms bi` and `ms.map (fun s1 => physFrom K s1 (bi s1))`
+      let live := refineLiveT fn K s
+      let ms := meshStageT fn K s
+      let bi : Option (List (CellTR Float) × Bool) :=
+        match ms with
+        | .ok s1 => some (beforeIntegrationR fn fx K.base s1.cells)
+        | .error _ => none
+      let ok := stepOkFromT s live ms (fun _ => bi.getD ([], false))
+      let sv := saveMeshT fn K s
+      let rebased := match sv with | .ok s1 => s1.fileNo != s.fileNo | .error _ => false
+      let cs0 : List (CellTR Float) := match sv with | .ok s1 => s1.cells | .error _ => []
+      let logs := cs0.map fun c => PipelineR.refineLog fn (kR K c.k) (PipelineR.faceTypes (kR K c.k) c.mesh)
+      let ns := (logs.map fun l => (l.filter (fun e => e.1)).length).foldl (· + ·) 0
+      let nm := (logs.map fun l => (l.filter (fun e => !e.1)).length).foldl (· + ·) 0
+      let swaps := if K.swapOn then (cs0.map fun c => countSwaps fn (PipelineR.faceTypes (kR K c.k) c.mesh)).foldl (· + ·) 0 else 0
+      let mOk := match ms with | .ok s1 => s1.cells.all cellMeshOk | .error _ => false
+      let ncoup := match bi with
+        | some r => (r.1.map fun (c : CellTR Float) => ((List.range c.mesh.nodes.size).filter fun i => usedN c.mesh i && (c.a.coup.getD i none).isSome).length).foldl (· + ·) 0
+        | none => 0
+      -- contact forces: the forces in front of `apply_internal_forces` are not kept; count the couplings and report the
+      -- nodes whose closest distance was written instead
+      let nsq := match bi with
+        | some r => (r.1.map fun (c : CellTR Float) => ((List.range c.mesh.nodes.size).filter fun i => usedN c.mesh i && c.a.sqd.getD i 0 != dblMax).length).foldl (· + ·) 0
+        | none => 0
+      out.putStrLn s!"O {s.iter} {b01 ok} {b01 live} {b01 mOk} {ns} {nm} {b01 rebased} {swaps} {ncoup} {nsq}"
+      match ms, bi with
+      | .ok s1, some r => s := physFrom K s1 r
+      | .error e, _ =>
+        out.putStrLn s!"X {e.name}"
+        stop := true
+      | _, _ => stop := true
+  out.putStrLn "END"
+
+end TissueRDrv
+
 partial def loop (h : IO.FS.Stream) (out : IO.FS.Stream) : IO Unit := do
   let line ← h.getLine
   if line.isEmpty then return ()
@@ -365,6 +487,10 @@ partial def loop (h : IO.FS.Stream) (out : IO.FS.Stream) : IO Unit := do
   | "runr" :: args =>
     match (RemeshDrv.pRunR.run 0).run args.toArray with
     | some ((K, n, every, s), _) => RemeshDrv.simulate out K n every s
+    | none => out.putStrLn "bad-op"
+  | "tissuer" :: args =>
+    match (TissueRDrv.pTissueR.run 0).run args.toArray with
+    | some ((K, n, every, s), _) => TissueRDrv.simulate out K n every s
     | none => out.putStrLn "bad-op"
   | "tissue" :: args =>
     match (TissueDrv.pTissue.run 0).run args.toArray with
